@@ -41,12 +41,14 @@ pub struct Case {
     /// `action < file` with the file positioned past a prefix of this many bytes (another image stored in front of this one,
     /// or a reader before us consumed it): the load starts where stdin stands, not at byte 0 of whatever file is behind it
     pub stdin_offset: usize,
+    /// Some(schedule): the save runs as two live invocations of the same `fml compile … -o x.bc` under the cooperative scheduler
+    pub overlap_save: Option<String>,
 }
 
 impl Case {
     pub fn to_json(&self) -> Value {
         json!({"engine": ENGINE, "property": self.property, "program": self.spec.to_json(), "profile": self.profile.name(), "writer": self.writer,
-               "action": self.action, "via_stdin": self.via_stdin, "plan": self.plan, "save_channel": self.save_channel, "save_plan": self.save_plan, "stale": self.stale, "hash_seed": self.hash_seed, "dev_stdin_pipe": self.dev_stdin_pipe, "env": self.env, "stdin_offset": self.stdin_offset})
+               "action": self.action, "via_stdin": self.via_stdin, "plan": self.plan, "save_channel": self.save_channel, "save_plan": self.save_plan, "stale": self.stale, "hash_seed": self.hash_seed, "dev_stdin_pipe": self.dev_stdin_pipe, "env": self.env, "stdin_offset": self.stdin_offset, "overlap_save": self.overlap_save})
     }
     pub fn from_json(v: &Value) -> Option<Case> {
         Some(Case {
@@ -64,6 +66,7 @@ impl Case {
             dev_stdin_pipe: v.get("dev_stdin_pipe").and_then(|x| x.as_bool()).unwrap_or(false),
             env: v.get("env").and_then(|e| e.as_array()).map(|a| a.iter().filter_map(|e| Some((e.get(0)?.as_str()?.to_string(), e.get(1)?.as_str()?.to_string()))).collect()).unwrap_or_default(),
             stdin_offset: v.get("stdin_offset").and_then(|x| x.as_u64()).unwrap_or(0) as usize,
+            overlap_save: v.get("overlap_save").and_then(|x| x.as_str()).map(|s| s.to_string()),
         })
     }
 }
@@ -108,7 +111,15 @@ pub fn check(case: &Case) -> Result<Option<Obs>, (String, String)> {
         if case.save_channel == "stdout>file" { c.stdout = super::proc::Out::File("x.bc".into()); }
         c.env = case.env.clone();
         c.shim = Some(ShimCfg { seed: case.hash_seed, plan: case.save_plan.clone(), clock: None, junk: 0, budget: Some(4_000_000), ..Default::default() });
-        let r = run_child(&dir, &c);
+        let r = match (&case.overlap_save, case.save_channel.as_str()) {
+            (Some(sched), "-o FILE") => {
+                let choices: Vec<u8> = sched.bytes().map(|b| b.wrapping_sub(b'0')).collect();
+                let (ra, rb, _) = super::proc::run_scheduled_pair(&dir, &c, &c, "openw,writef,rename,flock,unlink", &choices);
+                children += 1;
+                if ra.exit.is_success() { rb } else { ra }
+            }
+            _ => run_child(&dir, &c),
+        };
         children += 1;
         if !r.exit.is_success() { cleanup(&dir); return Ok(None); } // stage refusal (C06's subject) or a transient fault reported as an error
         if case.save_channel == "stdout|pipe" { std::fs::write(dir.join("x.bc"), &r.stdout).unwrap(); }
@@ -259,6 +270,7 @@ fn minimise(case: &Case, oracle: &str) -> Case {
     if best.dev_stdin_pipe { let mut c = best.clone(); c.dev_stdin_pipe = false; if still(&c) { best = c; } }
     if !best.env.is_empty() { let mut c = best.clone(); c.env = vec![]; if still(&c) { best = c; } }
     if best.stdin_offset > 0 { let mut c = best.clone(); c.stdin_offset = 0; if still(&c) { best = c; } }
+    if best.overlap_save.is_some() { let mut c = best.clone(); c.overlap_save = None; if still(&c) { best = c; } }
     if let ProgSpec::Stmts(stmts) = &best.spec {
         let mut stmts = stmts.clone();
         let mut j = stmts.len();
@@ -319,13 +331,20 @@ pub fn run_layer_b(property: &str, seed: u64, tier: &str, ev: &mut Evidence) -> 
             dev_stdin_pipe: false,
             env: if rng.below(3) == 0 { super::proc::env_set(&mut rng) } else { vec![] },
             stdin_offset: 0,
+            overlap_save: None,
         };
         let mut case = case;
+        if case.writer == "fml" && case.save_channel == "-o FILE" && rng.below(6) == 0 { case.overlap_save = Some((0..10).map(|_| if rng.coin() { '1' } else { '0' }).collect()); case.stale = false; }
         if case.via_stdin && rng.below(4) == 0 { case.stdin_offset = *rng.pick(&[1usize, 20, 100, 5000, 9000]); if case.plan.contains('$') { case.plan = String::new(); } }
         if !case.via_stdin && rng.below(10) == 0 { case.dev_stdin_pipe = true; if case.plan.contains('$') || case.plan.contains(":x:") || case.plan.contains(":y:") { case.plan = String::new(); } }
         if rng.below(3) == 0 {
             let c = if case.save_channel == "-o FILE" { 'f' } else { 'o' };
-            case.save_plan = match rng.below(3) { 0 => format!("{}:*:l:{}", c, rng.pick(&[1u32, 2, 3, 7, 64, 1023])), 1 => format!("{}:{}:s:{}", c, rng.below(3), 1 + rng.below(4)), _ => format!("{}:{}:e:0", c, rng.below(3)) };
+            case.save_plan = match rng.below(5) {
+                0 => format!("{}:*:l:{}", c, rng.pick(&[1u32, 2, 3, 7, 64, 1023])), 1 => format!("{}:{}:s:{}", c, rng.below(3), 1 + rng.below(4)), 2 => format!("{}:{}:e:0", c, rng.below(3)),
+                // a passing error (EAGAIN on a pipe somebody switched to non-blocking, a passing EIO), alone or in a burst: the save may fail — an image that is reported saved is complete
+                3 => format!("{}:{}:y:{}", c, rng.below(4), rng.pick(&[11u32, 11, 5])),
+                _ => { let at = rng.below(3); (0..12).map(|k| format!("{}:{}:y:11", c, at + k)).collect::<Vec<_>>().join(";") }
+            };
         }
         let r = check(&case);
         (case, r)
